@@ -168,7 +168,8 @@ func (d *Driver) handleCallbacks(
 	ctx, cancel := context.WithTimeout(context.Background(), timeout)
 	defer cancel()
 
-	c := make(chan *callbackResult)
+	// buffered so the worker can always deliver its result and exit, even if we already timed out
+	c := make(chan *callbackResult, 1)
 
 	go func() {
 		defer close(c)
